@@ -235,6 +235,34 @@ fn c04_rollover(dir: &str) -> bool {
     true
 }
 
+/// C12: a non-blocking commit that is deferred (another session is alive) hands the changeset back; the
+/// retried commit must then behave like an ordinary one - in particular `rollback(1)` restores the state
+/// before it (the reverse delta travelled with the changeset).
+fn c12_handback_session(dir: &str) -> bool {
+    let _ = std::fs::remove_dir_all(dir);
+    let db: Db = Nomt::open(opts(dir, true)).unwrap();
+    commit(&db, vec![(key(1), Some(vec![1]))]);
+    let root1 = db.root();
+    let f = db.begin_session(SessionParams::default())
+        .finish(vec![(key(1), KeyReadWrite::Write(Some(vec![2]))), (key(2), KeyReadWrite::Write(Some(vec![20])))])
+        .unwrap();
+    let other = db.begin_session(SessionParams::default());
+    let back = f.try_commit_nonblocking(&db).unwrap();
+    let deferred = back.is_some();
+    let unchanged = db.root() == root1 && db.read(key(1)).unwrap() == Some(vec![1]);
+    drop(other);
+    let committed = match back {
+        Some(f2) => f2.try_commit_nonblocking(&db).unwrap().is_none(),
+        None => false,
+    };
+    let after = db.read(key(1)).unwrap() == Some(vec![2]) && db.read(key(2)).unwrap() == Some(vec![20]);
+    let rb = db.rollback(1);
+    let restored = rb.is_ok() && db.root() == root1 && db.read(key(1)).unwrap() == Some(vec![1]) && db.read(key(2)).unwrap() == None;
+    println!("deferred={} state_unchanged_by_deferral={} retried_commit={} new_state={} rollback(1)_restores_previous_state={} ({:?})",
+        deferred, unchanged, committed, after, restored, rb.map_err(|e| e.to_string()));
+    deferred && unchanged && committed && after && restored
+}
+
 /// C14 (driver): build the database that `c14_commit_for_injection` commits to.
 fn c14_prepare(dir: &str) -> bool {
     let _ = std::fs::remove_dir_all(dir);
@@ -391,6 +419,7 @@ fn main() {
         "c20_fresh_and_reopen" => c20_fresh_and_reopen(dir),
         "c20_try_open" => c20_try_open(dir),
         "c14_prepare" => c14_prepare(dir),
+        "c12_handback_session" => c12_handback_session(dir),
         "c04_rollover" => c04_rollover(dir),
         "c14_commit_for_injection" => c14_commit_for_injection(dir),
         "c20_drop_with_inflight_io" => c20_drop_with_inflight_io(dir),
